@@ -211,7 +211,32 @@ impl P {
             Tok::Ident(s) => match s.as_str() {
                 "true" => Ok(Val::Int(1)),
                 "false" => Ok(Val::Int(0)),
-                _ => Ok(Val::Ident(s)),
+                _ => {
+                    let mut name = s;
+                    // call-like or indexed arguments (offsetof(label), REG[10000], Enum.Const): opaque
+                    while matches!(self.peek(), Some(Tok::P('(')) | Some(Tok::P('[')) | Some(Tok::P('.'))) {
+                        let mut depth = 0i32;
+                        loop {
+                            let t = self.next()?;
+                            match &t {
+                                Tok::P('(') | Tok::P('[') => depth += 1,
+                                Tok::P(')') | Tok::P(']') => depth -= 1,
+                                _ => {}
+                            }
+                            name.push_str(&match &t {
+                                Tok::Ident(x) => x.clone(),
+                                Tok::Int(x) => x.to_string(),
+                                Tok::Float(x) => x.to_string(),
+                                Tok::Str(x) => format!("{:?}", x),
+                                Tok::P(c) => c.to_string(),
+                            });
+                            if depth <= 0 && !matches!(t, Tok::P('.')) {
+                                break;
+                            }
+                        }
+                    }
+                    Ok(Val::Ident(name))
+                }
             },
             Tok::P('{') => {
                 let mut fields = vec![];
@@ -249,7 +274,11 @@ impl P {
                 }
                 Ok(Val::Arr(xs))
             }
-            // pseudo-args, sigils, anything non-flat: an opaque token that never equals a request
+            Tok::P(c) if (c == '$' || c == '%') && matches!(self.peek(), Some(Tok::Ident(_))) => match self.value()? {
+                Val::Ident(x) => Ok(Val::Ident(format!("{}{}", c, x))),
+                other => Ok(other),
+            },
+            // pseudo-args, anything non-flat: an opaque token that never equals a request
             Tok::P(c) => {
                 let mut s = String::from(c);
                 // swallow up to the next ',' or ')' at depth 0
